@@ -44,6 +44,9 @@ uint32_t _ZN9QtPrivate14compareStringsE11QStringViewS0_N2Qt15CaseSensitivityE(ui
   if (c) return (uint32_t)c; return na == nb ? 0 : (na < nb ? (uint32_t)-1 : 1); }
 uint8_t _ZN9QtPrivate12equalStringsE11QStringViewS0_(uint64_t na, char *a, uint64_t nb, char *b) { if (na != nb) return 0; if (na == 0) return 1; return vpl_c05_eq((uint16_t*)a, (uint16_t*)b, na); }
 uint8_t _ZeqRK7QStringS1_(char *a, char *b) { QAD *x = *(QAD**)a, *y = *(QAD**)b; if (x->f1 != y->f1) return 0; if (x->f1 == 0) return 1; return vpl_c05_eq(qs_chars(x), qs_chars(y), x->f1); }
+/* log / error TEXT only (never inspected by the property): identity / empty models, as for every formatting function (GUIDE) */
+void _ZNK7QString3argERKS_i5QChar(char *ret, char *self, char *a, uint32_t w, uint16_t fill) { *(QAD**)ret = qad_ref(*(QAD**)self); }
+void _ZN9QtPrivate16QStringList_joinEPK11QStringList11QStringView(char *ret, char *list, uint64_t n, char *sep) { *(QAD**)ret = (QAD*)&G__ZN10QArrayData11shared_nullE; }
 #endif
 /* libstdc++ glue: std::__find_if<const QString*, _Iter_equals_val<const QString>>(first, last, pred) as used by
    QList<QString>::contains.  The header version computes the trip count as (uintptr_t)last - (uintptr_t)first, which cbmc
